@@ -31,22 +31,31 @@ def ivJ (i : Interval) : Json :=
 def bhash (b : Bytes) : Json :=
   natList [b.length, b.foldl (fun h x => (h * 131 + x + 1) % 1000000007) 0]
 
+def refsJ (refs : List (Bytes × Nat)) : Json := Json.arr (refs.map (fun p => Json.arr #[text p.1, nat p.2])).toArray
+
 def handle (op : String) (j : Json) : Except String Json := do
   let names ← getNatListList j "names"
+  let lens ← getNatList j "lens"
+  let htext ← getNatList j "text"
+  let refs := names.zip lens
   let recs ← (← getArr j "recs").mapM getRec
   let body := encodeAll recs
+  let header := encodeHeader htext refs
+  let members := [header ++ body]
   let oc := Gen.C16.oldCig
   let on := Gen.C16.oldChrom
   let mj := drecJ Gen.C16.cigarLetters Gen.C16.seqLetters
   let sj := drecJ specCL specSL
   -- shipped rule only: indexing an empty name list raised (IndexError inside the lazy column -> ParsingException)
   if on && names.isEmpty && !recs.isEmpty && op != "write" then
-    let e := Json.mkObj ([("err", Json.str "other:ParsingException")] ++ (if op == "decode" then [("enc", bhash body)] else []))
+    let e := Json.mkObj ([("err", Json.str "other:ParsingException")] ++ (if op == "decode" then [("enc", bhash body), ("hdr", bhash header)] else []))
     return reply e none
   match op with
   | "decode" =>
-    let m := Json.mkObj [("enc", bhash body), ("recs", Json.arr ((readWhole oc on names body).map mj).toArray)]
-    let s := Json.mkObj [("enc", bhash body), ("recs", Json.arr ((recs.map (view names)).map sj).toArray)]
+    let m := match readFile oc on members with
+      | some (rf, ds) => Json.mkObj [("enc", bhash body), ("hdr", bhash header), ("refs", refsJ rf), ("recs", Json.arr (ds.map mj).toArray)]
+      | none => Json.mkObj [("err", Json.str "other:header")]
+    let s := Json.mkObj [("enc", bhash body), ("hdr", bhash header), ("refs", refsJ refs), ("recs", Json.arr ((recs.map (view names)).map sj).toArray)]
     pure (reply m (some s))
   | "chunked" =>
     let k ← getNat j "k"
@@ -55,12 +64,22 @@ def handle (op : String) (j : Json) : Except String Json := do
     let s := Json.mkObj [("recs", Json.arr ((recs.map (view names)).map sj).toArray)]
     pure (reply m (some s))
   | "interval" =>
-    let iv := Json.arr (((readWhole oc on names body).map (intervalOf Gen.C16.consumes)).map ivJ).toArray
+    let ds := readWhole oc on names body
+    let iv := Json.arr ((alignmentToInterval Gen.C16.consumingCodes ds).map ivJ).toArray
+    let ib := Json.arr ((ds.map (intervalOf Gen.C16.consumes)).map ivJ).toArray
     let sv := Json.arr ((recs.map (specInterval names)).map ivJ).toArray
-    pure (reply (Json.mkObj [("buf", iv), ("fn", iv)]) (some (Json.mkObj [("buf", sv), ("fn", sv)])))
+    pure (reply (Json.mkObj [("buf", ib), ("fn", iv)]) (some (Json.mkObj [("buf", sv), ("fn", sv)])))
   | "write" =>
-    let idx ← getNatList j "idx"
-    let m := Json.mkObj [("body", bhash (selectBytes (addNewline body) idx))]
+    let mode ← getStr j "mode"
+    let out ← if mode == "chunks" then do
+        let k ← getNat j "k"
+        pure (writeChunks oc on members k)
+      else do
+        let idx ← getNatList j "idx"
+        pure (writeFile members idx)
+    let whole := gunzip out
+    let m := Json.mkObj [("file", bhash whole), ("body", bhash (whole.drop header.length)),
+                         ("eof", Json.bool (out.getLast? == some [] && Gen.C16.eofMarker == specEof))]
     pure (reply m none)
   | _ => throw s!"C16: unknown op {op}"
 
